@@ -157,6 +157,9 @@ def rooms(
 
     layout_height, layout_width = layout
 
+    if layout_height < 1 or layout_width < 1:
+        raise ValueError(f'invalid layout ({layout}), no rooms')
+
     y_splits = np.linspace(
         0,
         shape.height - 1,
@@ -527,6 +530,9 @@ def memory_rooms(
     rng = get_gv_rng_if_none(rng)
 
     layout_height, layout_width = layout
+
+    if layout_height < 1 or layout_width < 1:
+        raise ValueError(f'invalid layout ({layout}), no rooms')
 
     y_splits = np.linspace(
         0,
